@@ -357,10 +357,11 @@ CHECKS["C30"] = dict(
     entries=[
         dict(name="harness_c30_poly", quick={"B": 3, "maxdeg": 2}, thorough={"B": 8, "maxdeg": 2}),
         dict(name="harness_c30_linsolve", quick={"B": 2}, thorough={"B": 4}),
+        dict(name="harness_c30_factored", quick={"B": 2}, thorough={"B": 3}),
     ],
-    anchors=["SymEngine::solve(", "SymEngine::solve_poly_linear", "SymEngine::solve_poly_quadratic", "SymEngine::linsolve"],
-    bounds="linear and quadratic equations c2 x^2 + c1 x + c0 with c1, c2 enumerated in [-3,3] ([-8,8]), c2 != 0, and a symbolic constant term |c0|<=9 (64): every returned element is a root (substituted and expanded exactly, radicals included), the number of solutions matches the discriminant, Vieta's sum; 2x2 linear systems with symbolic integer entries |a|<=2 (4), non-singular",
-    outside=["cubic and quartic formulas", "solve_trig", "rational coefficients", "singular linear systems"],
+    anchors=["SymEngine::solve(", "SymEngine::solve_poly_linear", "SymEngine::solve_poly_quadratic", "SymEngine::solve_poly_cubic", "SymEngine::solve_poly_quartic", "SymEngine::linsolve"],
+    bounds="linear and quadratic equations c2 x^2 + c1 x + c0 with c1, c2 enumerated in [-3,3] ([-8,8]), c2 != 0, and a symbolic constant term |c0|<=9 (64): every returned element is a root (substituted and expanded exactly, radicals included), the number of solutions matches the discriminant, Vieta's sum; 2x2 linear systems with symbolic integer entries |a|<=2 (4), non-singular; cubics and quartics lead*(x-r1)...(x-rn) for all root tuples |r|<=2 (3), lead in {1,2} (enumerated as paths): rational elements of the result are roots, and when the result is all rational it contains every root",
+    outside=["cubic and quartic results left as unsimplified radicals", "solve_trig", "rational coefficients", "singular linear systems"],
 )
 
 CHECKS["C31"] = dict(
@@ -373,9 +374,10 @@ CHECKS["C31"] = dict(
 
 CHECKS["C22"] = dict(
     src="C22.cpp", level="model_checking",
-    entries=[dict(name="harness_c22", quick={"B": 2, "V": 2, "nterms": 1, "nsets": 5, "emax": 1}, thorough={"B": 3, "V": 3, "nterms": 2, "nsets": 8, "emax": 2, "_wall": 1700})],
+    entries=[dict(name="harness_c22", quick={"B": 2, "V": 2, "nterms": 1, "nsets": 5, "emax": 1}, thorough={"B": 3, "V": 3, "nterms": 2, "nsets": 8, "emax": 2, "_wall": 1700}),
+             dict(name="harness_c22_varorder", quick={"B": 2, "V": 2}, thorough={"B": 3, "V": 3})],
     anchors=["SymEngine::reconcile", "SymEngine::MIntPoly::eval", "SymEngine::add_mpoly", "SymEngine::mul_mpoly", "SymEngine::MIntPoly::as_symbolic"],
-    bounds="two MIntPoly operands, each over a subset of {x,y,z} (quick: 5 subsets {}, {x}, {y}, {x,y}, {x,y,z}; thorough: all 8; every ordered pair: equal, overlapping, disjoint, empty), 1 (2) terms with exponents 0..1 (0..2) and symbolic integer coefficients |c|<=2 (4); add, sub, mul, neg, square; evaluation homomorphism at a symbolic integer point |v|<=2 (3); as_symbolic/from_basic round trip",
+    bounds="from_dict with the three variables listed in each of the 6 orders, two terms with exponents 0..2 and symbolic coefficients, evaluated at a symbolic integer point; two MIntPoly operands, each over a subset of {x,y,z} (quick: 5 subsets {}, {x}, {y}, {x,y}, {x,y,z}; thorough: all 8; every ordered pair: equal, overlapping, disjoint, empty), 1 (2) terms with exponents 0..1 (0..2) and symbolic integer coefficients |c|<=2 (4); add, sub, mul, neg, square; evaluation homomorphism at a symbolic integer point |v|<=2 (3); as_symbolic/from_basic round trip",
     outside=["MExprPoly", "exponents above 2", "more than 3 variables"],
 )
 
@@ -386,7 +388,7 @@ CHECKS["C36"] = dict(
         dict(name="harness_c36_real_imag", quick={"B": 2}, thorough={"B": 5}),
     ],
     anchors=["SymEngine::as_numer_denom", "SymEngine::NumerDenomVisitor", "SymEngine::as_real_imag", "SymEngine::RealImagVisitor", "SymEngine::conjugate"],
-    bounds="as_numer_denom on operator trees of depth <= 1 (2) over {x, y, positive p, 2, -1/2, 3/4, -5/3, a symbolic integer} with neg, integer powers 2,-1,-2,3, rational powers of p and + - * /: n == e*d for all real x, y and positive p, no negative top-level exponents; as_real_imag on six shapes in w = sqrt(2) + I sqrt(3), a symbolic Gaussian integer z and a symbolic integer c (products, powers 2, 3, -1) -- as_real_imag rejects symbols by design; conjugate of a Gaussian integer",
+    bounds="as_numer_denom on operator trees of depth <= 1 (2) over {x, y, positive p, 2, -1/2, 3/4, -5/3, a symbolic integer} with neg, integer powers 2,-1,-2,3, rational powers of p and + - * /: n == e*d for all real x, y and positive p, no negative top-level exponents; as_real_imag on seven shapes in w = sqrt(2) + I sqrt(3), a symbolic Gaussian integer z and a symbolic integer c (products, powers 2, 3, -1, -2) -- as_real_imag rejects symbols by design; conjugate of a Gaussian integer",
     outside=["rewrite_as_exp/sin/cos, expand_as_exp, trig_to_sqrt (need complex exponential identities that the uninterpreted-function oracle cannot decide)", "as_real_imag of functions"],
     assumptions=["oracle D2 (vlib/veval.h) and a pairwise complex evaluator in the harness"],
 )
